@@ -1055,6 +1055,9 @@ func c01R8(c *Ctx) {
 		OnFalse("r.dnssec", FieldIs(dnssecF)),
 		OnFalse("isZoneSecure()", CallTo(isZoneSecure)),
 		OnFalse("hasSupportedDS()", CallTo(hasDS)),
+		// the validator was consulted on this very path and raised no error
+		// (e.g. an empty reply checked by authority() before a clean message is built)
+		OnFalse("answer()/authority() err", AnyOf(ResultOf(1, answer), ResultOf(1, authority))),
 	}
 	n := 0
 	for _, in := range instrsWhere(resolve, isReturn) {
